@@ -139,6 +139,12 @@ func (n *NSQD) lookupLoop() {
 				if channel.Exiting() && n.channelIsLive(channel.topicName, channel.name) {
 					cmd = nsq.Register(channel.topicName, channel.name)
 				}
+				// ... and never register a channel - which registers its topic as well -
+				// once its topic has gone: the topic's deletion is notified before its
+				// channels are marked exiting, so its UNREGISTER may already have been sent
+				if !channel.Exiting() && !n.topicIsLive(channel.topicName) {
+					cmd = nsq.UnRegister(channel.topicName, channel.name)
+				}
 			case *Topic:
 				// notify all nsqlookupds that a new topic exists, or that it's removed
 				branch = "topic"
